@@ -3,11 +3,11 @@
 EXTENDS RPDesign, Json
 CONSTANT Depth
 VARIABLE hist
-AllEvents == {Ev("StartLogin", [b |-> b]) : b \in Browsers}
+AllEvents == {Ev("StartLogin", [b |-> b, q |-> q]) : b \in Browsers, q \in LoginQueries}
              \cup {Ev("Callback", [b |-> b, att |-> att, form |-> f, tamper |-> t, err |-> er, method |-> m]) : b \in Browsers, att \in Attempts \cup {"t0"}, f \in Forms, t \in Tampers, er \in BOOLEAN, m \in Methods}
 \* keep walks productive: half of the callbacks are the fitting one for the browser's jar
 Fitting == {Ev("Callback", [b |-> b, att |-> jar[b].st, form |-> "exact", tamper |-> "asis", err |-> FALSE, method |-> m]) : b \in {x \in Browsers : jar[x].st # "none"}, m \in Methods}
-            \cup (IF nAtt < MaxAttempts THEN {Ev("StartLogin", [b |-> b]) : b \in Browsers} ELSE {})
+            \cup (IF nAtt < MaxAttempts THEN {Ev("StartLogin", [b |-> b, q |-> q]) : b \in Browsers, q \in LoginQueries} ELSE {})
 Pool == IF Fitting # {} /\ RandomElement({TRUE, FALSE}) THEN Fitting ELSE {e \in AllEvents : e.op = "Callback" \/ nAtt < MaxAttempts}
 MInit == Init /\ hist = <<>>
 MNext == \E e \in {RandomElement(Pool)} : Do(e) /\ hist' = Append(hist, e)
